@@ -80,7 +80,9 @@ def real_case(draw, max_tasks=7, flags=(), outcomes="some", jobs=(None, 1, 2, 2,
     if signal_mode:
         case["sigplan"] = {"sig": draw(st.sampled_from([int(signal.SIGINT), int(signal.SIGTERM)])),
                            "after_lines": draw(st.sampled_from([1, 1, 2, 3, 4, 6, 9, 13])),
-                           "delay_ms": draw(st.sampled_from([0, 0, 1, 2, 5, 10, 30, 100]))}
+                           "delay_ms": draw(st.sampled_from([0, 0, 1, 2, 5, 10, 30, 100])),
+                           # an impatient second signal (the other one of SIGINT/SIGTERM) this many microseconds later
+                           "second_us": draw(st.sampled_from([None, None, 100, 200, 300, 500, 1000, 5000]))}
     return case
 
 
@@ -195,6 +197,15 @@ def _drive(root, argv, env, log, sigplan, timeout):
                     info["running_at_signal"] = sorted(int(ln.split()[1]) for ln in at if ln[:2] == b"S " and ln.split()[1] not in ended)
                     os.kill(pid, sigplan["sig"])
                     info["signal_sent"] = True
+                    if sigplan.get("second_us"):
+                        t_end = time.monotonic() + sigplan["second_us"] / 1e6
+                        while time.monotonic() < t_end:
+                            pass
+                        try:
+                            os.kill(pid, int(signal.SIGTERM) if sigplan["sig"] == int(signal.SIGINT) else int(signal.SIGINT))
+                            info["second_signal_sent"] = True
+                        except ProcessLookupError:
+                            pass
     finally:
         os.close(r)
         try:
